@@ -14,6 +14,11 @@ func TestC08(t *testing.T) {
 		mix[k] = 9
 	}
 	mix[core.OpBuildBatch] = 10
+	// batch calls also go through registered filters, interleaved with calls through plain ones
+	mix[core.OpRegister] = 3
+	mix[core.OpUnregister] = 1
+	mix[core.OpReset] = 1
+	mix["useRegistered"] = 30
 	mix[core.OpRelSet] = 8
 	runSimProp(t, &simProp{
 		ID: "C08",
@@ -48,7 +53,7 @@ func TestC08(t *testing.T) {
 		},
 		Mix:      mix,
 		MaxPlain: 5, MaxRel: 3,
-		Rule: "world history, then a batch call (Builder.NewBatch(Q), Batch.Add/Remove/Exchange/SetRelation/RemoveEntities, Relations.SetBatch/ExchangeBatch and all Q variants) whose arguments are legal for every matching entity; world W1 executes the batch call, lock-step world W2 executes the documented single-entity call once per entity that W2's query through the same filter yielded immediately before; both worlds and the model (which applies the single-entity rule) are compared completely after the call and after every later op; returned count == number of matching entities; a Q variant's query yields exactly the affected entities (SetRelation: only those whose target changed), each once, with Mask/Has/Get/Relation of their new state and kept values; non-trivial = a batch call that affected entities from >= 2 source tables, or >= 2 entities at once",
+		Rule: "world history (including Reset and filter registration), then a batch call through a plain or a registered filter (Builder.NewBatch(Q), Batch.Add/Remove/Exchange/SetRelation/RemoveEntities, Relations.SetBatch/ExchangeBatch and all Q variants) whose arguments are legal for every matching entity; world W1 executes the batch call, lock-step world W2 executes the documented single-entity call once per entity that W2's query through the same filter yielded immediately before; both worlds and the model (which applies the single-entity rule) are compared completely after the call and after every later op; returned count == number of matching entities; a Q variant's query yields exactly the affected entities (SetRelation: only those whose target changed), each once, with Mask/Has/Get/Relation of their new state and kept values; non-trivial = a batch call that affected entities from >= 2 source tables, or >= 2 entities at once",
 		Observe: func(tr *tracker, op *core.Op) {
 			f := tr.sim.Flags
 			if f["batch.sources"] >= 2 || f["batch.affected"] >= 2 {
